@@ -1426,6 +1426,14 @@ def platform_call(fname: Optional[str], fval: Optional[V], call: ast.Call, args:
     if fname in ("keyword.iskeyword", "iskeyword", "keyword.issoftkeyword") and len(args) == 1 and isinstance(args[0], K) and not kwargs:
         import keyword as _kw  # platform table of reserved words, read as data
         return K(bool(isinstance(args[0].v, str) and (_kw.iskeyword(args[0].v) if "soft" not in fname else _kw.issoftkeyword(args[0].v))))
+    if fname in ("unicodedata.normalize", "unicodedata.is_normalized") and len(args) == 2 and not kwargs and all(isinstance(a, K) and isinstance(a.v, str) for a in args):
+        import unicodedata as _ud  # the Unicode database of the platform, read as data (a pure function of two strings)
+        try:
+            return K(getattr(_ud, fname.split(".")[1])(args[0].v, args[1].v))
+        except Exception:
+            return None
+    if fname in ("str.casefold", "str.lower", "str.upper", "str.strip", "str.title", "str.capitalize", "str.swapcase") and len(args) == 1 and not kwargs and isinstance(args[0], K) and isinstance(args[0].v, str):
+        return K(getattr(str, fname.split(".")[1])(args[0].v))
     if fname in ("re.sub", "re.escape", "re.fullmatch", "re.match", "re.search", "re.split", "re.findall") and args and not kwargs \
             and all(isinstance(a, K) and isinstance(a.v, (str, int)) for a in args):
         import re as _re  # pure string functions of the platform library, on constant arguments
